@@ -572,6 +572,38 @@ def _eq_var_node(cond):
     return None
 
 
+def callees_of(tu, fname, depth=2):
+    """same-TU functions called (as statements or in expressions) from `fname`, transitively up to `depth`,
+    with the call nodes: [(callee name, call node, caller name)]"""
+    out, seen, todo = [], {fname}, [(fname, 0)]
+    while todo:
+        f, d = todo.pop(0)
+        body = tu.body(f) if f in tu.funcs else None
+        if body is None or d >= depth:
+            continue
+        for n in walk_stmts(body):
+            if n.get("kind") == "CallExpr":
+                c = cfacts.strip(cfacts.kids(n)[0])
+                nm = c.get("referencedDecl", {}).get("name") if c.get("kind") == "DeclRefExpr" else None
+                if nm in tu.funcs and tu.body(nm) is not None:
+                    out.append((nm, n, f))
+                    if nm not in seen:
+                        seen.add(nm)
+                        todo.append((nm, d + 1))
+    return out
+
+
+def c_dispatch_tables_deep(tu, fname, depth=2):
+    """c_dispatch_tables of `fname` and of the helpers it calls: [(function the table is in, table)]"""
+    out = [(fname, t) for t in c_dispatch_tables(tu, fname)]
+    done = {fname}
+    for nm, _, _ in callees_of(tu, fname, depth):
+        if nm not in done:
+            done.add(nm)
+            out += [(nm, t) for t in c_dispatch_tables(tu, nm)]
+    return out
+
+
 def c_dispatch_tables(tu, fname):
     """if/else-if ladders on `E == k` AND `switch (E)` statements of a function, in one shape:
     [ {var, var_node, arms: [ {values, stmt, node} ], orelse: stmt|None, node, form: 'if'|'switch'} ]
@@ -1007,10 +1039,14 @@ class Ev:
         b = cfacts.strip(ks[0]) if ks else {}
         if b.get("kind") == "UnaryOperator" and b.get("opcode") == "*":
             b = cfacts.strip(cfacts.kids(b)[0])
+        if b.get("kind") == "DeclRefExpr":
+            obj = str(b.get("referencedDecl", {}).get("name"))  # (text_of would run on into `.field`)
         if env is not None and b.get("kind") == "DeclRefExpr":
             bound = env["ptrs"].get(b.get("referencedDecl", {}).get("id"))
-            if bound is not None and str(bound[0]).startswith("obj:") and not bound[1].t:
-                obj = bound[0][4:]
+            if bound is not None and not bound[1].t:
+                # the object is what the pointer points to (the caller's object when the pointer came in as an
+                # argument), not the spelling of the pointer variable
+                obj = bound[0][4:] if str(bound[0]).startswith("obj:") else str(bound[0])
         return "member:%s.%s@%s" % (bt, n.get("name"), obj)
 
     def where(self, n):
